@@ -383,7 +383,7 @@ impl GraphDatabaseService {
         let (reply, receive) = oneshot::channel::<Result<String>>();
         let msg = DbMessage::DataModelUpdate(datamodel.to_string(), reply);
         let _ = self.sender.send(msg).await;
-        let _ = receive.await?;
+        receive.await??;
 
         self.datamodel().await
     }
